@@ -2,7 +2,7 @@
 """Mechanical extraction of /repo/src into one Verus file.
 
     extract.py --repo /repo --contracts /verif/contracts --out build/ppp_verus.rs
-               [--vacuity]      additionally emit <out>.vacuity.rs (every contracted
+               [--vacuity]      additionally emit <out>_vacuity.rs (every contracted
                                 function also `ensures false`)
 
 Every function body in the output is the text found in the repository *now*, copied
@@ -805,9 +805,9 @@ def main():
             json.dump(meta, f)
         if a.vacuity:
             gv = generate(a.repo, a.contracts, True)
-            with open(a.out.replace(".rs", ".vacuity.rs"), "w") as f:
+            with open(a.out.replace(".rs", "_vacuity.rs"), "w") as f:
                 f.write("\n".join(gv.out) + "\n")
-            with open(a.out.replace(".rs", ".vacuity.rs") + ".map.json", "w") as f:
+            with open(a.out.replace(".rs", "_vacuity.rs") + ".map.json", "w") as f:
                 json.dump({"linemap": gv.linemap, "functions": gv.functions}, f)
     except ExtractError as e:
         print(f"EXTRACT-ERROR: {e}", file=sys.stderr)
